@@ -19,7 +19,7 @@ CHECKS = {
          "All 20 trait methods and all 25 ordered conversions on every valid triple for Raw/Structured/three foreign implementors (one overrides to_bytes, one overrides from_bytes to be stricter, one refuses everything in from_bytes); a message-layer transcript reproduced under Miri on i686 and s390x; scanners re-fed with every representation at every state of their fixpoints.",
          "'Any third-party type' is a quantifier over programs; instantiated with two implementors exercising the two documented extension points.", "4 C03"),
  "C04": (True, SWEEP, "bounded-exhaustive enumeration of conversion/constructor/parser inputs in two feature configurations and on a 32-bit target",
-         "All ~150 conversions, `new`, FromStr and constants in configurations std and no-default-features: 8/16-bit and newtype sources complete, 32-bit complete in thorough, wider sources over a truncation alphabet; all 7-bit ASCII strings to length 3 (4) and every Unicode scalar alone / next to a digit; range audit of every message field over all triples and of every accessor of a third-party message whose status byte changes between reads; every numeral up to 1 100 000; the conversions once more with a 32-bit usize (harness_p32 interpreted by Miri for i686).",
+         "All ~150 conversions, `new`, FromStr and constants in configurations std and no-default-features: 8/16-bit and newtype sources complete, 32-bit complete in thorough, wider sources over a truncation alphabet; all 7-bit ASCII strings to length 3 (4) and every Unicode scalar alone / next to a digit; range audit of every message field over all triples and of every accessor of a third-party message whose status byte changes between reads; every numeral up to 1 100 000 and leading-zero paddings up to 300; conversions that do not exist on the pinned tree are probed and judged if they appear; the conversions once more with a 32-bit usize (harness_p32 interpreted by Miri for i686).",
          "64/128-bit and pointer-sized sources are covered over a structured finite alphabet (low 16 bits x high-bit patterns), not their whole range.", "4 C04"),
  "C05": (True, SWEEP, "bounded-exhaustive enumeration against reference arithmetic and a reference numeral recogniser",
          "Value preservation of every conversion in and out, parsing of all strings over a 14-symbol alphabet up to length 4 (6 thorough), all 7-bit ASCII strings up to length 3 (4), every Unicode scalar alone / before / after a digit, plus structured numerals, Display round trip for every value (also under twelve formatter-flag combinations), every numeral up to 1 100 000, ordering for all pairs.",
@@ -62,7 +62,7 @@ MORE = {
  "C17": (True, MC, "explicit-state fixpoints with reset/copy probes in every reachable state and replay of every BFS path on a fresh object",
          "In every reachable state (complete concrete state space for the 14-bit scanner): reset()==new() by PartialEq AND by behaviour (all continuations up to 3 feeds, with polls, compared with a new scanner), also after storms of 256 / 65536 resets (thorough: 2^32 resets in a row, and 2^32 messages before a reset, per scanner type), after traffic on all 16 channels and after progress on all 15 other channels; copies evolve identically; every path re-derived on a fresh scanner (catches state outside the value); three-channel products; new()==default().",
          "Continuations of the behavioural comparison are bounded to 3 feeds; PartialEq is used for the equality clause only.", "4 C17"),
- "C18": (True, SWEEP, "exhaustive re-execution of the API domains and scanner fixpoints inside allocation-counting regions and catch_unwind in an unoptimised build, three configurations; polling scanner also with the mock clock moving on after every reading",
+ "C18": (True, SWEEP, "exhaustive re-execution of the API domains and scanner fixpoints inside allocation-counting regions and catch_unwind in an unoptimised build, three configurations; polling scanner also with the mock clock moving on after every reading, handed over between threads on the real clock; Display under formatter flags and Debug of scanners mid-sequence inside counting regions",
          "Counting #[global_allocator] + catch_unwind around every API region in opt-level-0 builds of configurations std (mock clock), no-default-features and real clock; documented panics must occur.",
          "Counts allocations made on the calling thread through the global allocator; does not see stack usage.", "4 C18"),
  "C19": (True, SWEEP, "bounded-exhaustive enumeration of deserializer inputs (primitive value deserializers and serde_json::Value trees, human-readable and not) in the four combinations of the std and serde_repr features",
